@@ -233,4 +233,8 @@ def tasks(tier):
     # Position._on_executed_order / FuturesExchange (shared with C03) - with the price of `formulas.*` the loss is the initial margin plus fees
     import props.C03 as P3
     ts += [t for t in P3.tasks(tier) if t.id.startswith('fill.') and '.ro.' in t.id]
+    # the minute range the liquidation check of the fast simulator looks at includes the gap to the previous close: every later
+    # chunk is handed on with its first minute normalised, whether or not orders rest (shared with C07)
+    import props.C07 as P7
+    ts += [t for t in P7.tasks(tier) if t.id in ('fast.5m.step5', 'fast.15m.step5', 'fast.5m.step1')]
     return ts
